@@ -9,6 +9,13 @@ decides the statement's clauses on the recorded history.
 """
 from __future__ import annotations
 
+import json
+import os
+import shutil
+import subprocess
+import sys
+import tempfile
+
 import numpy as np
 
 PROPERTY = "C15"
@@ -166,7 +173,8 @@ def run_shard(shard):
     counters = {"fit_runs": 0, "loss_call_events": 0, "gradient_step_events": 0, "validation_events": 0,
                 "contract_evals_train_val_split": 0, "contract_evals_get_batches": 0,
                 "direct_helper_calls": 0, "runs_with_skipped_remainder": 0, "runs_with_multi_batch_epochs": 0,
-                "determinism_pairs": 0, "different_key_changes_order": 0, "rows_observed": 0}
+                "determinism_pairs": 0, "different_key_changes_order": 0, "rows_observed": 0,
+                "cross_process_pairs": 0, "cross_process_child_failures": 0}
     violations, samples = [], []
     cases, nontrivial = set(), set()
     split_log = []
@@ -326,8 +334,59 @@ def run_shard(shard):
                 violations.append({"mechanism": f"contract.{e}", "summary": f"direct call contract on {e} violated; {cfg}",
                                    "case": cfg, "replay": dict(shard, only=cfg, name="replay")})
 
+    def digest(ev, fin, split):
+        import hashlib
+        blob = json.dumps([[(e["counter"], e["xt"], e["ct"], e["key"]) for e in ev], fin, split], sort_keys=True)
+        return hashlib.sha1(blob.encode()).hexdigest()
+
+    if shard.get("xproc_child") is not None:
+        # child of the cross-process clause: run one configuration in this (differently salted) interpreter
+        ev, fin, split, _, _ = do_run(shard["xproc_child"])
+        return {"evaluations": 0, "nontrivial": 0, "samples": [], "counters": {}, "violations": [], "required": {},
+                "notes": {"digest": digest(ev, fin, split), "first_rows": ev[0]["xt"] if ev else [],
+                          "hashseed": os.environ.get("PYTHONHASHSEED")}}
+
+    def cross_process(cfg):
+        """'The same key reproduces the same run' across interpreter sessions: the configuration is run in two fresh
+        interpreters with different str-hash salts (PYTHONHASHSEED 1 / 2; this worker runs under 0); the recorded
+        histories (rows, conditions, keys, parameter versions per loss call, split) must be identical."""
+        ev, fin, split, _, _ = do_run(cfg)
+        mine = digest(ev, fin, split)
+        outs = []
+        wd = tempfile.mkdtemp(dir=os.path.join(os.path.dirname(os.path.dirname(os.path.dirname(os.path.abspath(__file__)))), ".work"))
+        try:
+            for hs in ("1", "2"):
+                sp, op = os.path.join(wd, f"s{hs}.json"), os.path.join(wd, f"o{hs}.json")
+                json.dump({"name": "xproc", "x64": shard.get("x64", True), "reach": False, "xproc_child": cfg,
+                           "seed": shard.get("seed", 0), "shard": 0}, open(sp, "w"))
+                env = dict(os.environ, PYTHONHASHSEED=hs)
+                try:
+                    subprocess.run([sys.executable, "-m", "fjmon.worker", "C15", sp, op], env=env, timeout=900,
+                                   capture_output=True, cwd=os.path.dirname(os.path.dirname(os.path.dirname(os.path.abspath(__file__)))))
+                    r = json.load(open(op))
+                except Exception as e:  # noqa: BLE001
+                    r = {"harness_error": repr(e)}
+                if "harness_error" in r:
+                    counters["cross_process_child_failures"] += 1
+                    continue
+                outs.append((hs, r["notes"]["digest"], r["notes"]["first_rows"]))
+        finally:
+            shutil.rmtree(wd, ignore_errors=True)
+        if len(outs) == 2:
+            counters["cross_process_pairs"] += 1
+            cases.add(("xproc",) + tuple(sorted(cfg.items())))
+            nontrivial.add(("xproc",) + tuple(sorted(cfg.items())))
+            ds = {mine} | {d for _, d, _ in outs}
+            if len(ds) != 1:
+                violation("nondeterministic.across_processes",
+                          f"the same key gives different runs in different interpreter sessions (PYTHONHASHSEED 0/1/2): "
+                          f"first batch rows {ev[0]['xt'] if ev else []} vs {[o[2] for o in outs]}", cfg)
+
     only = shard.get("only")
-    if only is not None:
+    if only is not None and only.get("xproc"):
+        cfg = {k: only[k] for k in ("n", "val_prop", "batch_size", "with_condition", "epochs", "key")}
+        cross_process(cfg)
+    elif only is not None:
         if only.get("direct"):
             rng = np.random.default_rng(0)
             n, vp, bs = only["n"], only["val_prop"], only["batch_size"]
@@ -349,10 +408,16 @@ def run_shard(shard):
         for _ in range(shard["ncfg"]):
             one_config(gen_config(rng))
         direct_calls(rng, 40 if shard.get("tier") != "thorough" else 400)
+        if shard["shard"] < (2 if shard.get("tier") != "thorough" else 8):
+            cfg = gen_config(rng)
+            cfg.update(n=max(cfg["n"], 12), epochs=max(cfg["epochs"], 2))
+            cfg["batch_size"] = min(cfg["batch_size"], 4)
+            cross_process(dict(cfg, xproc=True))
 
     return {"evaluations": len(cases), "nontrivial": len(nontrivial), "samples": samples, "counters": counters,
             "violations": violations,
             "required": {k: counters[k] for k in ("loss_call_events", "gradient_step_events", "validation_events",
                                                   "contract_evals_train_val_split", "contract_evals_get_batches",
                                                   "runs_with_skipped_remainder", "runs_with_multi_batch_epochs",
-                                                  "determinism_pairs")}}
+                                                  "determinism_pairs")
+                         + (("cross_process_pairs",) if (only is None and shard["shard"] < 2) else ())}}
